@@ -15,24 +15,18 @@ open Balm
 
 variable {n : Nat}
 
-def inK (p : Space n) (motifs : List (Space n)) (s : State n) : Bool :=
-  p.memB s && motifs.any fun m => m.memB s
-
 theorem inK_iff (p : Space n) (motifs : List (Space n)) (s : State n) : inK p motifs s = true ↔ KOf p motifs s := by
   simp only [inK, KOf, Bool.and_eq_true, List.any_eq_true, Space.memB_iff]
 
-def symHypB (N : Net n) (p : Space n) (motifs : List (Space n)) (cands : List (State n)) : Bool :=
-  isTrapB N p &&
-  cands.all (fun c => p.memB c && !inK p motifs c) &&
-  decide cands.Nodup &&
-  (attractors N).all fun A =>
-    !(A.all (fun s => p.memB s && !inK p motifs s)) || cands.any fun c => A.contains c
+theorem nodupB_iff : ∀ l : List (State n), nodupB l = true ↔ l.Nodup
+  | [] => by simp [nodupB]
+  | x :: xs => by simp [nodupB, nodupB_iff xs]
 
 theorem symHypB_spec (N : Net n) (p : Space n) (motifs : List (Space n)) (cands : List (State n))
     (h : symHypB N p motifs cands = true) :
     TrapSpace N p ∧ (∀ c ∈ cands, p.Mem c ∧ ¬ KOf p motifs c) ∧ cands.Nodup ∧
       ∀ A, OwnA N p (KOf p motifs) A → ∃ c ∈ cands, A c := by
-  simp only [symHypB, Bool.and_eq_true, List.all_eq_true, decide_eq_true_eq, Bool.or_eq_true,
+  simp only [symHypB, Bool.and_eq_true, List.all_eq_true, nodupB_iff, Bool.or_eq_true,
     Bool.not_eq_true', List.any_eq_true, List.contains_iff_mem] at h
   obtain ⟨⟨⟨htrap, hin⟩, hnd⟩, hcov⟩ := h
   refine ⟨(isTrapB_iff N p).1 htrap, ?_, hnd, ?_⟩
